@@ -75,42 +75,41 @@ fn run(cases: &str, out: &str, start: usize) {
 }
 
 
-/// passes everything through and keeps every `stride`-th case (small ones only); `finish` appends the kept cases once
-/// more, each under a reader mode other than the plain cursor
+/// passes everything through; right behind every `stride`-th case (small ones only) it writes that case once more, under
+/// a reader mode other than the plain cursor. The copy follows its original immediately, so it meets the same dictionary.
 struct SampleTee<'a> {
     w: &'a mut dyn Write,
-    cap: usize,
     stride: usize,
     ncase: usize,
+    copies: usize,
     cur: Option<(usize, Vec<String>, usize)>,
-    kept: Vec<(usize, Vec<String>)>,
     part: Vec<u8>,
-    dict_case: bool,
 }
 
 impl<'a> SampleTee<'a> {
-    fn new(w: &'a mut dyn Write, cap: usize) -> Self {
-        SampleTee { w, cap, stride: 3, ncase: 0, cur: None, kept: vec![], part: vec![], dict_case: false }
+    fn new(w: &'a mut dyn Write, stride: usize) -> Self {
+        SampleTee { w, stride, ncase: 0, copies: 0, cur: None, part: vec![] }
     }
     fn close_case(&mut self) {
         if let Some((idx, lines, size)) = self.cur.take() {
-            if size <= 65536 && idx % self.stride == 0 {
-                self.kept.push((idx, lines));
-                if self.kept.len() > self.cap {
-                    self.stride *= 2;
-                    let st = self.stride;
-                    self.kept.retain(|(i, _)| i % st == 0);
+            // (a `#case dictionary` block only sets the dictionary for what follows; very large cases are left alone)
+            if size <= 65536 && idx % self.stride == 0 && !lines[0].contains(" dictionary ") && lines.len() > 1 {
+                let modes = [1u32, 4, 6, 2, 5, 7, 3];
+                let mode = modes[self.copies % modes.len()];
+                self.copies += 1;
+                let label = lines[0].splitn(3, ' ').nth(2).unwrap_or("");
+                writeln!(self.w, "#case {}r frag{} {}", idx, mode, label).unwrap();
+                writeln!(self.w, "rmode {}", mode).unwrap();
+                for l in &lines[1..] {
+                    writeln!(self.w, "{}", l).unwrap();
                 }
+                writeln!(self.w, "rmode 0").unwrap();
             }
         }
     }
     fn feed(&mut self, line: &str) {
         if line.starts_with("#case") {
             self.close_case();
-            // a `#case dictionary` block changes the dictionary for what follows: such files are not sampled
-            if line.contains(" dictionary ") {
-                self.dict_case = true;
-            }
             self.cur = Some((self.ncase, vec![line.to_string()], 0));
             self.ncase += 1;
         } else if let Some((_, lines, size)) = self.cur.as_mut() {
@@ -123,43 +122,28 @@ impl<'a> SampleTee<'a> {
     fn finish(&mut self) {
         if !self.part.is_empty() {
             let l = String::from_utf8_lossy(&self.part).to_string();
-            self.part.clear();
             self.feed(&l);
+            self.w.write_all(&self.part).ok();
+            self.w.write_all(b"\n").ok();
+            self.part.clear();
         }
         self.close_case();
-        if self.dict_case {
-            return;
-        }
-        let modes = [1u32, 4, 6, 2, 5, 7, 3];
-        let kept = std::mem::take(&mut self.kept);
-        let mut n = self.ncase;
-        for (k, (idx, lines)) in kept.iter().enumerate() {
-            let label = lines[0].splitn(3, ' ').nth(2).unwrap_or("");
-            let mode = modes[k % modes.len()];
-            writeln!(self.w, "#case {} frag{} of {} {}", n, mode, idx, label).unwrap();
-            n += 1;
-            writeln!(self.w, "rmode {}", mode).unwrap();
-            for l in &lines[1..] {
-                writeln!(self.w, "{}", l).unwrap();
-            }
-            writeln!(self.w, "rmode 0").unwrap();
-        }
     }
 }
 
 impl<'a> Write for SampleTee<'a> {
     fn write(&mut self, buf: &[u8]) -> std::io::Result<usize> {
-        self.w.write_all(buf)?;
+        // line by line: a copy must go out exactly at a case boundary, i.e. before the next `#case` line is passed on
         for &b in buf {
             if b == b'\n' {
                 let l = String::from_utf8_lossy(&self.part).to_string();
-                self.part.clear();
                 self.feed(&l);
+                // the pending line is passed on only now: `feed` has written the copy of the case before it, if any
+                self.w.write_all(&self.part)?;
+                self.w.write_all(b"\n")?;
+                self.part.clear();
             } else {
-                // lines beyond 64 KiB belong to cases that are not kept anyway
-                if self.part.len() <= 70000 {
-                    self.part.push(b);
-                }
+                self.part.push(b);
             }
         }
         Ok(buf.len())
@@ -194,7 +178,7 @@ fn main() {
             let mut w = std::io::BufWriter::with_capacity(1 << 20, out.lock());
             // families whose cases decode octets: a sample of the cases is run again through readers that hand out the
             // octets in pieces (`rmode`); whatever the reader, every answer must be the same
-            let cap = if tier == "thorough" { 20000 } else { 1500 };
+            let cap = if tier == "thorough" { 31 } else { 9 };
             if matches!(family.as_str(), "c01" | "c02" | "c03" | "c04" | "c15" | "c16" | "c16h" | "c17" | "c18") {
                 let mut tee = SampleTee::new(&mut w, cap);
                 gen::generate(&family, seed, &tier, &args[5..], &mut tee);
